@@ -465,6 +465,76 @@ def gen_combo_base(rng, cid):
     return enc(c)
 
 
+NPAR_B = {'linear': 2, 'quadratic': 3}
+
+
+def gen_mixed_base(rng, cid):
+    """model LISTS whose combinations have DIFFERENT parameter counts (gaussian 3 / lorentzian 3 / pseudo_voigt 4 x
+    linear 2 / quadratic 3: 5..7 parameters) and windows holding between (smallest count - 2) and (largest count + 2)
+    points: some combinations are too narrow for the window, the others must be fitted; the result is the first success
+    in documented order, else the first combination's.  Narrow, high peaks centred in the window (so that a fit on
+    6..9 points can succeed) on an exactly representable grid; scalar widths (all windows alike) or explicit windows
+    (a different point count per peak).  min_p_value is 0 (only a NaN p-value fails), tiny or the default."""
+    n = rng.randint(50, 110)
+    h = rng.choice([1, 3, 5]) * 2.0 ** rng.randint(-6, -2)
+    x0 = rng.randint(-30, 30) * h
+    x = [x0 + i * h for i in range(n)]
+    n_peaks = rng.choice([1, 2, 2, 3])
+    shape = rng.choice(PEAKS)
+    y, var, pk, meta = synth_data(rng, x, n_peaks, width_steps=rng.uniform(0.55, 1.3), bkg_deg=rng.choice([1, 2]),
+                                  shapes=[shape], noise_pow=rng.choice([-6, -5, -4]), height_range=(40, 400))
+    c = {'id': cid, 'class': 'mixed', 'x': x, 'y': y, 'var': var, 'grid': 'dyadic', 'truth': pk}
+    while True:
+        pks = rng.sample(PEAKS, rng.choice([1, 2, 2, 3]))
+        bks = rng.sample(['linear', 'quadratic'], rng.choice([1, 2, 2, 2]))
+        counts = sorted({NPAR[p_] + NPAR_B[b_] for p_ in pks for b_ in bks})
+        if len(counts) >= 2 and len(pks) * len(bks) >= 2:
+            break
+    kmin, kmax = counts[0], counts[-1]
+
+    def item(kind_name, role):
+        if rng.random() < 0.7:
+            return {'name': kind_name}
+        pre = rng.choice(['', 'pre_', 'bkg_', 'peak_', 'x'])
+        if role == 'bkg':
+            return {'inst': 'poly', 'degree': {'linear': 1, 'quadratic': 2}[kind_name], 'prefix': pre}
+        return {'inst': kind_name, 'prefix': pre}
+
+    def spec(kinds, role):
+        if len(kinds) == 1 and rng.random() < 0.5:
+            return {'form': 'one', 'items': [item(kinds[0], role)]}
+        return {'form': 'many', 'container': rng.choice(['list', 'tuple']), 'items': [item(k, role) for k in kinds]}
+    c['bkg'], c['peak'] = spec(bks, 'bkg'), spec(pks, 'peak')
+    # grid indices of the peak centres (kept away from the ends so that no window is clipped)
+    idx = [min(max(min(range(n), key=lambda i: abs(x[i] - p_['loc'])), 8), n - 9) for p_ in pk]
+    idx = sorted(set(idx))
+
+    def target():
+        return rng.choice([kmin - 2, kmin - 1, kmin, kmin, kmin + 1, kmin + 1, kmax - 1, kmax, kmax, kmax + 1, kmax + 2])
+    if rng.random() < 0.5:
+        t = target()
+        # t points around a grid point (t odd) or around the middle of a grid step (t even)
+        c['est'] = [x[i] + (0.0 if t % 2 else 0.5 * h) for i in idx]
+        c['windows'] = {'scalar': (t - 0.5) * h}
+        c['target_points'] = [t] * len(idx)
+    else:
+        wl, ts = [], []
+        for i in idx:
+            t = target()
+            a = i - t // 2
+            wl.append([x[a] - 0.25 * h, x[a + t - 1] + 0.25 * h] if t > 0 else [x[i] + 0.25 * h, x[i] + 0.5 * h])
+            ts.append(t)
+        c['est'] = [x[i] for i in idx]
+        c['windows'] = {'explicit': wl}
+        c['target_points'] = ts
+    c['fp'] = None if rng.random() < 0.6 else {'f': rng.choice([0.5, 0.4375, 0.625]), 's': rng.choice([1 / 3, 0.25, 0.125])}
+    c['fr'] = {'min_p': rng.choice([0.0, 0.0, 1e-6, 0.01, 0.05]), 'maxf': rng.choice([1.0, 1.0, 2.0]),
+               'minf': rng.choice([1.0, 0.5, 0.5, 0.0])}
+    c['remove_synth'] = gen_synth_removals(rng, x, 1) if rng.random() < 0.5 else []
+    c['solo'] = True
+    return enc(c)
+
+
 def doc_order(case):
     """documented trial order of the combinations: peak outer, background inner ("the background is varied first")"""
     return [(ip, ib) for ip in range(len(case['peak']['items'])) for ib in range(len(case['bkg']['items']))]
@@ -524,12 +594,13 @@ def tune_combo(case, obs):
     return case
 
 
-def gen_combo_cases(ctx, rng, n, first_id):
+def gen_combo_cases(ctx, rng, n, first_id, n_mixed=0):
     base = [gen_combo_base(rng, first_id + i) for i in range(n)]
+    mixed = [gen_mixed_base(rng, first_id + n + i) for i in range(n_mixed)]
     if not base:
-        return []
+        return mixed
     res = ctx.run_impl(HARNESS, {'cases': [dict(c, remove_fitted=False) for c in base]}, timeout=1800)
-    return [tune_combo(c, o) for c, o in zip(base, res['cases'])]
+    return [tune_combo(c, o) for c, o in zip(base, res['cases'])] + mixed
 
 
 def enc(c):
@@ -570,6 +641,8 @@ def witness_cases():
 
 
 N_COMBO = 12
+N_MIXED = 12
+N_FORMS = 3          # other Iterable forms per remove_peaks call (quick tier; thorough: all)
 
 
 def want_solo(c):
@@ -577,6 +650,27 @@ def want_solo(c):
     the time)"""
     return (c['bkg']['form'] == 'many' and c['peak']['form'] == 'many' and len(c['bkg']['items']) >= 2
             and len(c['peak']['items']) >= 2 and len(c['est']) <= 3)
+
+
+def assign_remove_forms(cases, rng, per_call):
+    """every remove_peaks call is repeated with the results in `per_call` other Iterable forms, taken round-robin
+    from a shuffled list of all forms (None: all of them)"""
+    if per_call is None:
+        for c in cases:
+            c['remove_forms'] = 'all'
+        return
+    order = list(REMOVE_FORMS)
+    rng.shuffle(order)
+    pos = 0
+    for c in cases:
+        fl = []
+        for _ in range(1 + len(c.get('remove_synth') or [])):
+            fl.append([order[(pos + j) % len(order)] for j in range(per_call)])
+            pos += per_call
+        c['remove_forms'] = fl
+
+
+REMOVE_FORMS = ['tuple', 'iter', 'gen', 'filter', 'map', 'dict_values', 'deque', 'chain', 'iterable_obj']
 
 
 def gen_cases(rng, tier, ctx=None):
@@ -589,7 +683,9 @@ def gen_cases(rng, tier, ctx=None):
         if c['class'] in ('random', 'explicit', 'wide') and want_solo(c):
             c['solo'] = True
     if ctx is not None:
-        cases += gen_combo_cases(ctx, rng, N_COMBO * (1 if tier == 'quick' else 6), len(plan))
+        mult = 1 if tier == 'quick' else 6
+        cases += gen_combo_cases(ctx, rng, N_COMBO * mult, len(plan), N_MIXED * mult)
+    assign_remove_forms(cases, random.Random(rng.random()), N_FORMS if tier == 'quick' else None)
     return cases
 
 
@@ -670,7 +766,16 @@ def remove_term(case, rr):
     else:
         ob = f'(ROut {ql(rr["out"])})'
     after = ql(rr['input_after'])
-    return f'(mkRC {cstr(rr["label"])} {"true" if rr["with_var"] else "false"} {data} {clist(rl)} {ob} {after})'
+    more = []
+    for m in rr.get('more', []):
+        mo = f'(RRaise {cstr(m["exc"]["cls"])})' if m['exc'] is not None else f'(ROut {ql(m["out"])})'
+        # an input that is bit-identical afterwards is written by reference to the data (same list, shorter term)
+        ma = 'same_after' if m['input_after'] == ys and m['input_identical'] else ql(m['input_after'])
+        more.append(f'(mkRF {cstr(m["form"])} {mo} {ma})')
+    if more:
+        return (f'(let rc_d := {data} in let same_after := map snd rc_d in mkRC {cstr(rr["label"])} '
+                f'{"true" if rr["with_var"] else "false"} rc_d {clist(rl)} {ob} {after} {clist(more)})')
+    return f'(mkRC {cstr(rr["label"])} {"true" if rr["with_var"] else "false"} {data} {clist(rl)} {ob} {after} [])'
 
 
 def case_term(case, obs):
@@ -827,6 +932,12 @@ def fit_violations(case, obs):
                 bad.append(('window:explicit-changed', f'peak {i}: explicit window was modified'))
         if n < k and a != 'window_too_narrow':
             bad.append(('narrow-window:not-reported', f'peak {i}: {n} points < {k} parameters but assessment is {a}'))
+        if n >= k and a == 'window_too_narrow':
+            # the point-count guard is per (peak, background) combination: only a combination with more parameters than
+            # the window has points may be reported as too narrow
+            bad.append(('narrow-window:reported-with-enough-points',
+                        f'peak {i}: reported as window_too_narrow for {rname(r).split("/")[1]} although the window ({w0}, {w1}) holds '
+                        f'{n} points >= {k} parameters of that combination'))
         if a in ('failed', 'window_too_narrow'):
             if not all(v == 'nan' for v in r['popt'].values()) or r['aic'] != '-inf' or r['red'] != 'nan' or r['p'] != 'nan':
                 bad.append(('failure-result:fields', f'peak {i}: a {a} result carries parameters/statistics'))
@@ -835,18 +946,29 @@ def fit_violations(case, obs):
         if any(math.isnan(v) for v in popt.values()):
             bad.append(('popt:nan', f'peak {i}: {a} result with NaN parameters'))
             continue
-        chi2 = sum((ys[j] - model_value(r, popt, xs[j])) ** 2 / vs[j] for j in pts)
+        chi2, dchi = 0.0, 0.0
+        for j in pts:
+            f_ = model_value(r, popt, xs[j])
+            res_ = ys[j] - f_
+            # the residual is known to ~1e-12 of the magnitudes involved (reference formulas vs the implementation's
+            # evaluation): a chi-square that is itself rounding noise (exact interpolation, n = k) is not compared
+            de = 1e-12 * (abs(ys[j]) + abs(f_) + 1e-300)
+            chi2 += res_ ** 2 / vs[j]
+            dchi += (2 * abs(res_) * de + de * de) / vs[j]
         red, p, aic = unhx(r['red']), unhx(r['p']), unhx(r['aic'])
         dof = n - k
+        c_lo, c_hi = max(chi2 - dchi, 0.0), chi2 + dchi
         if dof > 0:
-            if not abs(red - chi2 / dof) <= 1e-6 * (1e-9 + abs(red)):
+            if not (c_lo / dof - 1e-6 * (1e-9 + abs(red)) <= red <= c_hi / dof + 1e-6 * (1e-9 + abs(red))):
                 bad.append(('stats:red_chisq', f'peak {i}: red_chisq {red} but recomputed chi2/(n-k) = {chi2 / dof} (n={n}, k={k})'))
             pe = float(gammaincc(dof / 2.0, chi2 / 2.0))
-            if not abs(p - pe) <= 1e-6 * (1e-3 + pe):
+            pe_hi, pe_lo = float(gammaincc(dof / 2.0, c_lo / 2.0)), float(gammaincc(dof / 2.0, c_hi / 2.0))
+            if not (pe_lo - 1e-6 * (1e-3 + pe) <= p <= pe_hi + 1e-6 * (1e-3 + pe)):
                 bad.append(('stats:p_value', f'peak {i}: p {p} but 1 - F_{dof}({chi2}) = {pe}'))
-        if chi2 > 0 and n > 0:
+        if c_lo > 0 and n > 0:
             ae = n * math.log(chi2 / n) + 2 * k
-            if not abs(aic - ae) <= 1e-6 * (1 + abs(ae)) + 1e-5 * n:
+            slack = 1e-6 * (1 + abs(ae)) + 1e-5 * n
+            if not (n * math.log(c_lo / n) + 2 * k - slack <= aic <= n * math.log(c_hi / n) + 2 * k + slack):
                 bad.append(('stats:aic', f'peak {i}: aic {aic} but n ln(chi2/n) + 2k = {ae}'))
         if a == 'success':
             wx = [xs[j] for j in pts]
@@ -908,9 +1030,18 @@ def order_violations(case, obs):
             bad.append(('order:single-combination-call', f'the list specification returns {len(obs["results"])} results but '
                                                          f'{names[k]} alone, on the same explicit windows, {what}'))
             return bad
+    xs = [unhx(v) for v in case['x']]
     for i, r in enumerate(obs['results']):
         rs = [solos[k]['results'][i] for k in doc]
         table = ', '.join(f'{names[k]}: {x["assessment"]}' for k, x in zip(doc, rs))
+        # the point-count guard of every single combination: too narrow exactly when points < its own parameter count
+        w0, w1 = unhx(r['window'][0]), unhx(r['window'][1])
+        npts = sum(1 for v in xs if w0 <= v < w1)
+        for k, x in zip(doc, rs):
+            if (x['assessment'] == 'window_too_narrow') != (npts < len(x['popt'])):
+                bad.append(('narrow-window:single-combination-guard',
+                            f'peak {i}: {names[k]} alone on the window ({w0}, {w1}) with {npts} points and '
+                            f'{len(x["popt"])} parameters is assessed {x["assessment"]}'))
         succ = [x for x in rs if x['assessment'] == 'success']
         if succ:
             if not same_result(succ[0], r):
@@ -929,21 +1060,46 @@ def order_violations(case, obs):
 
 
 def remove_violations(case, rr):
+    """the removal clause of C17 on one remove_peaks call, for the list of results and for every other Iterable form the
+    same results were handed over in (the statement quantifies over the fit results, not over their container)"""
+    bad = remove_violations_one(case, rr, rr, rr['label'])
+    for m in rr.get('more', []):
+        label = f'{rr["label"]}, results passed as {FORM_TEXT.get(m["form"], m["form"])}'
+        b = remove_violations_one(case, rr, m, label)
+        bad += [(f'{k_}:{m["form"]}', t) for k_, t in b]
+        if not b and rr['exc'] is None and m['exc'] is None and not rr['with_var'] and m['out'] != rr['out']:
+            j = next(i for i, (u, v) in enumerate(zip(m['out'], rr['out'])) if u != v)
+            bad.append((f'remove:iterable-form-changes-result:{m["form"]}',
+                        f'remove_peaks ({label}) differs from the call with the same results in a list at point {j} '
+                        f'(x={unhx(case["x"][j])}): {unhx(m["out"][j])} vs {unhx(rr["out"][j])}'))
+    return bad
+
+
+FORM_TEXT = {'tuple': 'a tuple', 'iter': 'iter(list)', 'gen': 'a generator expression', 'filter': 'filter(f, list)',
+             'map': 'map(f, list)', 'dict_values': "a dict's values() view", 'deque': 'a collections.deque',
+             'chain': 'itertools.chain(list[:k], list[k:])', 'iterable_obj': 'an object with only __iter__'}
+
+
+def remove_violations_one(case, rr, ob, label):
+    """rr: the call record (results, with_var); ob: one observation of it (exc / out / input_after / input_identical)"""
     bad = []
     xs = [unhx(v) for v in case['x']]
     ys = [unhx(v) for v in case['y']]
-    if [unhx(v) for v in rr['input_after']] != ys or not rr['input_identical']:
-        bad.append(('remove:input-modified', f'remove_peaks ({rr["label"]}) modified its input'))
+    if [unhx(v) for v in ob['input_after']] != ys or not ob['input_identical']:
+        bad.append(('remove:input-modified', f'remove_peaks ({label}) modified its input'))
     if rr['with_var']:
-        if rr['exc'] is None or rr['exc']['cls'] != 'VariancesError':
-            bad.append(('remove:variances', 'remove_peaks accepted data with variances'))
+        if ob['exc'] is None or ob['exc']['cls'] != 'VariancesError':
+            bad.append(('remove:variances', f'remove_peaks ({label}) accepted data with variances'))
         return bad
     inv = any(unhx(r['window'][0]) > unhx(r['window'][1]) for r in rr['results'] if r['assessment'] == 'success')
-    if rr['exc'] is not None:
+    if ob['exc'] is not None:
         if not inv:
-            bad.append(('remove:exception', f'remove_peaks ({rr["label"]}) raises {rr["exc"]["type"]}: {rr["exc"]["msg"]}'))
+            bad.append(('remove:exception', f'remove_peaks ({label}) raises {ob["exc"]["type"]}: {ob["exc"]["msg"]}'))
         return bad
-    out = [unhx(v) for v in rr['out']]
+    out = [unhx(v) for v in ob['out']]
+    if len(out) != len(xs):
+        bad.append(('remove:length', f'remove_peaks ({label}) returns {len(out)} points for {len(xs)}'))
+        return bad
     for j, xv in enumerate(xs):
         sub, mag = 0.0, abs(ys[j])
         touched = False
@@ -959,10 +1115,10 @@ def remove_violations(case, rr):
                 mag += abs(pv)
         if not touched:
             if out[j] != ys[j] or math.copysign(1, out[j]) != math.copysign(1, ys[j]):
-                bad.append(('remove:outside-window-changed', f'remove_peaks ({rr["label"]}) changed point {j} (x={xv}) outside every successful window: {ys[j]} -> {out[j]}'))
+                bad.append(('remove:outside-window-changed', f'remove_peaks ({label}) changed point {j} (x={xv}) outside every successful window: {ys[j]} -> {out[j]}'))
                 break
         elif not abs(out[j] - (ys[j] - sub)) <= 1e-9 * mag:
-            bad.append(('remove:inside-window-value', f'remove_peaks ({rr["label"]}) point {j} (x={xv}): {out[j]} but input - fitted peaks = {ys[j] - sub}'))
+            bad.append(('remove:inside-window-value', f'remove_peaks ({label}) point {j} (x={xv}): {out[j]} but input - fitted peaks = {ys[j] - sub}'))
             break
     return bad
 
@@ -1105,7 +1261,58 @@ def correspondence(ctx):
                 order_samples.append(dict(describe(c, o), single_fits=[
                     {f"{spec_kinds(c['peak'])[ip]}+{spec_kinds(c['bkg'])[ib]}": solos[(ip, ib)]['results'][i]['assessment']
                      for ip, ib in doc} for i in range(len(o['results']))]))
+    # model lists with different parameter counts: points per window relative to the smallest / largest count
+    mixed = {'cases': 0, 'peaks': 0, 'points_below_smallest_count': 0, 'points_between_smallest_and_largest_count': 0,
+             'points_at_or_above_largest_count': 0, 'between_and_list_result_not_too_narrow': 0,
+             'between_and_list_result_is_success': 0, 'success_after_a_too_narrow_combination': 0,
+             'points_per_window': {}, 'parameter_count_sets': {}}
+    for c, o in zip(cases, obs):
+        if c['class'] != 'mixed' or o.get('exc') is not None or not o.get('results'):
+            continue
+        pk_, bk_ = spec_kinds(c['peak']), spec_kinds(c['bkg'])
+        ks = sorted({NPAR[p_] + NPAR_B[b_] for p_ in pk_ for b_ in bk_})
+        mixed['cases'] += 1
+        mixed['parameter_count_sets'][str(ks)] = mixed['parameter_count_sets'].get(str(ks), 0) + 1
+        xs_ = [unhx(v) for v in c['x']]
+        for r in o['results']:
+            w0, w1 = unhx(r['window'][0]), unhx(r['window'][1])
+            npts = sum(1 for v in xs_ if w0 <= v < w1)
+            mixed['peaks'] += 1
+            mixed['points_per_window'][str(npts)] = mixed['points_per_window'].get(str(npts), 0) + 1
+            if npts < ks[0]:
+                mixed['points_below_smallest_count'] += 1
+            elif npts < ks[-1]:
+                mixed['points_between_smallest_and_largest_count'] += 1
+                if r['assessment'] != 'window_too_narrow':
+                    mixed['between_and_list_result_not_too_narrow'] += 1
+                if r['assessment'] == 'success':
+                    mixed['between_and_list_result_is_success'] += 1
+                    order_ = [NPAR[p_] + NPAR_B[b_] for p_ in pk_ for b_ in bk_]
+                    pos_ = order_.index(len(r['popt'])) if len(r['popt']) in order_ else 0
+                    chosen = next((j for j, (p_, b_) in enumerate((p_, b_) for p_ in pk_ for b_ in bk_)
+                                   if {'peak': p_} == r['peak'] and NPAR_B[b_] - 1 == r['bkg'].get('poly')), pos_)
+                    if any(k_ > npts for k_ in order_[:chosen]):
+                        mixed['success_after_a_too_narrow_combination'] += 1
+            else:
+                mixed['points_at_or_above_largest_count'] += 1
+    forms_seen = {}
+    for o in obs:
+        for rr in o.get('removes', []):
+            for m in rr.get('more', []):
+                d_ = forms_seen.setdefault(m['form'], {'calls': 0, 'with_a_successful_result': 0})
+                d_['calls'] += 1
+                d_['with_a_successful_result'] += any(r['assessment'] == 'success' for r in rr['results'])
     ctx.coverage.update({
+        'model_lists_with_different_parameter_counts': mixed,
+        'mixed_rule': 'class mixed: peak/background lists whose combinations need 5..7 parameters (gaussian 3, lorentzian 3, '
+                      'pseudo_voigt 4 x linear 2, quadratic 3; any order, names/instances, list/tuple/single) with scalar or '
+                      'explicit windows of (smallest count - 2) .. (largest count + 2) points; list call compared in Coq with '
+                      'the model (per-combination point-count guard) and with first_success over the single-combination fits',
+        'remove_peaks_iterable_forms': forms_seen,
+        'remove_forms_rule': 'every remove_peaks call is repeated (fresh data, fresh iterable) with the same results as tuple / '
+                             'iter(list) / generator / filter / map / dict values view / deque / itertools.chain / object '
+                             f'with only __iter__ ({N_FORMS} forms per call round-robin in the quick tier, all in the thorough '
+                             'tier and in search); Coq compares each output with the model of the result SEQUENCE',
         'model_list_cases_with_single_fits': n_solo_cases, 'single_combination_calls': n_solo_calls,
         'list_spec_peaks_compared_with_first_success': n_list_peaks,
         'peaks_where_first_combination_fails_and_a_later_one_succeeds': n_first_fails,
@@ -1126,7 +1333,9 @@ def correspondence(ctx):
                 'scalar widths from 0.3 steps to twice the range, explicit windows (incl. empty), estimates at the edges and '
                 'outside, every spec form (name / instance with foreign prefix / list / tuple), default and custom '
                 'FitParameters/FitRequirements, unsorted estimates and bad specs (refusals); class combo: list x list model '
-                'specifications with min_p_value tuned so that the first combination fails and the trial order decides',
+                'specifications with min_p_value tuned so that the first combination fails and the trial order decides; '
+                'class mixed: model lists with different parameter counts on windows of 3..9 points; remove_peaks with '
+                'the results in every Iterable form',
         'data_sets': len(cases), 'fit_calls_raising': n_exc, 'peaks_fitted': n_peaks, 'reached_optimiser': n_opt,
         'remove_calls': n_rem, 'per_assessment': per_assess, 'per_class': classes,
         'curve_fit_calls_replayed': sum(len(o['trace']) for o in obs),
@@ -1138,16 +1347,30 @@ def correspondence(ctx):
 
 
 def search(ctx, broken):
-    """an obligation broke (the static proofs or the run files no longer check): evaluate the property
-    statement itself on the implementation over a fresh, adversarial set of inputs"""
+    """an obligation broke (the static proofs or the run files no longer check, or new/changed statements of the
+    anchored files were not executed): evaluate the property statement itself on the implementation over a fresh,
+    adversarial set of inputs -- every input class of the correspondence, every remove_peaks call with the results in
+    ALL Iterable forms; more model-list cases when the broken obligation names the fitting code, more removal sets when
+    it names remove_peaks"""
     rng = random.Random(ctx.seed + 17)
-    cases = [gen_case(rng, i, k) for i, k in enumerate(['narrow'] * 12 + ['outside'] * 12 + ['zero_dof'] * 4
-                                                        + ['random'] * 16 + ['explicit'] * 6)]
+    names = ' '.join(str(b) for b in (broken or []))
+    in_remove = '_remove_peaks' in names or 'remove' in names.lower()
+    in_fit = '_fit_peaks' in names or not in_remove
+    plan = ['narrow'] * 12 + ['outside'] * 12 + ['zero_dof'] * 4 + ['random'] * 16 + ['explicit'] * 6
+    if in_remove:
+        plan += ['random'] * 8 + ['explicit'] * 6 + ['wide'] * 4
+    cases = [gen_case(rng, i, k) for i, k in enumerate(plan)]
+    if in_remove:
+        for c in cases:
+            if c['class'] in ('random', 'explicit', 'wide'):
+                c['remove_synth'] = c['remove_synth'] + gen_synth_removals(rng, [unhx(v) for v in c['x']], 2)
     for c in cases:
         if want_solo(c):
             c['solo'] = True
-    # model lists whose trial order decides the result (first combination fails, later ones succeed)
-    cases += gen_combo_cases(ctx, rng, 16, len(cases))
+    # model lists whose trial order decides the result (first combination fails, later ones succeed) and model lists with
+    # different parameter counts on windows of a few points
+    cases += gen_combo_cases(ctx, rng, 16 if in_fit else 6, len(cases), 24 if in_fit else 6)
+    assign_remove_forms(cases, rng, None)
     res = ctx.run_impl(HARNESS, {'cases': cases}, timeout=1800)
     found = []
     for c, o in zip(cases, res['cases']):
